@@ -335,11 +335,31 @@ class Ctx:
         self.module, self.scopes, self.keep = module, scopes, keep
         self.ret, self.depth, self.stack = ret, depth, stack
         self.counter = [0]
+        self.inlined = set()
 
     def child(self, ret, name):
         c = Ctx(self.module, self.scopes, self.keep, ret, self.depth + 1, self.stack + (name,))
         c.counter = self.counter
+        c.inlined = self.inlined
+        c.inlined.add(name)
         return c
+
+
+def plain_decorators(fn) -> bool:
+    """no decorator, or only typing's no-op `@override`"""
+    return all(dotted(d) in ("override", "typing.override", "typing_extensions.override") for d in fn.decorator_list)
+
+
+def is_message_only(fn: ast.FunctionDef) -> bool:
+    """a helper that only builds and returns text (its result can only end up in a message)"""
+    for st in clean(fn.body):
+        if isinstance(st, ast.Assign) and all(isinstance(t, ast.Name) for t in st.targets) and \
+                (isinstance(st.value, (ast.Constant, ast.JoinedStr)) or is_cheap(st.value)):
+            continue
+        if isinstance(st, ast.Return) and isinstance(st.value, (ast.Constant, ast.JoinedStr, ast.Name)):
+            continue
+        return False
+    return True
 
 
 def find_helper(call: ast.Call, ctx: Ctx):
@@ -347,11 +367,11 @@ def find_helper(call: ast.Call, ctx: Ctx):
     f = call.func
     if isinstance(f, ast.Attribute) and isinstance(f.value, ast.Name) and f.value.id == "self":
         nm = f.attr
-        if not nm.startswith("_") or nm.startswith("__") or nm in ctx.keep or nm in ctx.stack:
+        if not nm.startswith("_") or nm in ctx.keep or nm in ctx.stack:
             return None
         for cls in ctx.scopes:
             c = [n for n in cls.body if isinstance(n, ast.FunctionDef) and n.name == nm]
-            if len(c) == 1 and not c[0].decorator_list:
+            if len(c) == 1 and plain_decorators(c[0]):
                 return c[0], True
             if c:
                 return None
@@ -361,7 +381,7 @@ def find_helper(call: ast.Call, ctx: Ctx):
         if not nm.startswith("_") or nm.startswith("__") or nm in ctx.keep or nm in ctx.stack:
             return None
         c = [n for n in ctx.module.body if isinstance(n, ast.FunctionDef) and n.name == nm]
-        if len(c) == 1 and not c[0].decorator_list:
+        if len(c) == 1 and plain_decorators(c[0]):
             return c[0], False
     return None
 
@@ -652,10 +672,70 @@ def subst_tree(b: Blk, env: dict, dead: set, stable: set, params: set, pending=f
     test = _Subst(env, dead, comp_names(t[1])).visit(copy.deepcopy(t[1]))
     if expr_writes(test):
         env, dead = kill(env, dead, set(), True, stable)
-    test, flip = canon_test(test)
     th = subst_tree(t[2], env, dead, stable, params)
     el = subst_tree(t[3], env, dead, stable, params)
-    return Blk(out, ("if", test, el, th) if flip else ("if", test, th, el))
+    node = split_if(test, th, el)
+    return Blk(out + node.stmts, node.term)
+
+
+def split_if(test, th: Blk, el: Blk) -> Blk:
+    """if <test>: th else: el  with a positive test and `and` / `or` expanded into nested decisions
+    (`if a and b: T else: E` == `if a: (if b: T else: E) else: E`; the renderer merges them back)"""
+    test, flip = canon_test(test)
+    if flip:
+        th, el = el, th
+    if isinstance(test, ast.BoolOp):
+        rest = test.values[1:]
+        rest = rest[0] if len(rest) == 1 else ast.BoolOp(op=test.op, values=rest)
+        if isinstance(test.op, ast.And):
+            return split_if(test.values[0], split_if(rest, th, el), el)
+        return split_if(test.values[0], th, split_if(rest, th, el))
+    return Blk([], ("if", test, th, el))
+
+
+def fold_copies(b: Blk, params: set) -> Blk:
+    """named intermediate results: `t = E; ...; x = t` (t not used otherwise, x not touched in between) == `x = E; ...`;
+    `t = E; return t` == `return E`; `x = x` disappears"""
+    t = b.term
+    if t[0] == "if":
+        t = ("if", t[1], fold_copies(t[2], params), fold_copies(t[3], params))
+    stmts = list(b.stmts)
+
+    def single(st):
+        return (isinstance(st, ast.Assign) and len(st.targets) == 1 and isinstance(st.targets[0], ast.Name))
+
+    changed = True
+    while changed:
+        changed = False
+        for i, st in enumerate(stmts):
+            if not (single(st) and isinstance(st.value, ast.Name)):
+                continue
+            x, tmp = st.targets[0].id, st.value.id
+            if x == tmp:
+                del stmts[i]
+                changed = True
+                break
+            if tmp in params:
+                continue
+            js = [j for j in range(i) if single(stmts[j]) and stmts[j].targets[0].id == tmp]
+            if not js:
+                continue
+            j = js[-1]
+            between = stmts[j + 1:i]
+            if any(x in names_in(m) or tmp in stored_names(m) for m in between) or x in stored_names(stmts[j]) - {tmp}:
+                continue
+            if tmp in loads_in_tree(Blk(stmts[i + 1:], t)) or comp_names(stmts[j]) & {x, tmp}:
+                continue
+            ren = _Rename({tmp: x}, {})
+            head = ast.Assign(targets=[ast.Name(id=x, ctx=ast.Store())], value=stmts[j].value)
+            stmts[j:i + 1] = [head] + [ren.visit(copy.deepcopy(m)) for m in between]
+            changed = True
+            break
+    if (t[0] == "ret" and isinstance(t[1], ast.Name) and t[1].id not in params and stmts and single(stmts[-1])
+            and stmts[-1].targets[0].id == t[1].id and not isinstance(stmts[-1].value, ast.Name)):
+        t = ("ret", stmts[-1].value)
+        stmts = stmts[:-1]
+    return Blk(stmts, t)
 
 
 def loads_in_tree(b: Blk) -> set:
@@ -704,7 +784,8 @@ def is_terminator(st) -> bool:
 
 
 def contains_terminator(stmts) -> bool:
-    return any(isinstance(n, (ast.Return, ast.Raise)) for st in stmts for n in ast.walk(st))
+    """a `return` somewhere inside (a sequence of guards with their own results is not nested under one more `if`)"""
+    return any(isinstance(n, ast.Return) for st in stmts for n in ast.walk(st))
 
 
 def size(stmts) -> int:
@@ -739,6 +820,22 @@ def render(b: Blk) -> list:
     if ke < kt:
         return out + [ast.If(test=negate(test), body=el, orelse=[])] + th
     return out + [ast.If(test=test, body=th, orelse=[])] + el
+
+
+def merge_ands(stmts: list) -> list:
+    """`if a: (if b: X)` (no else on either) -> `if a and b: X`"""
+    out = []
+    for st in stmts:
+        if isinstance(st, ast.If):
+            st = ast.If(test=st.test, body=merge_ands(st.body), orelse=merge_ands(st.orelse))
+            while not st.orelse and len(st.body) == 1 and isinstance(st.body[0], ast.If) and not st.body[0].orelse:
+                inner = st.body[0]
+                vals = []
+                for v in (st.test, inner.test):
+                    vals += v.values if isinstance(v, ast.BoolOp) and isinstance(v.op, ast.And) else [v]
+                st = ast.If(test=ast.BoolOp(op=ast.And(), values=vals), body=inner.body, orelse=[])
+        out.append(st)
+    return out
 
 
 class _RenameLocals(ast.NodeTransformer):
@@ -843,8 +940,9 @@ def normalize(fn: ast.FunctionDef, module: ast.Module, scopes=(), keep=(), param
     tree = build(body, Blk([], ("ret", None)), ctx)
     stable = imported_names(module, fn) | {"np", "xr", "warnings"}
     tree = subst_tree(tree, {}, set(), stable, pset)
+    tree = fold_copies(tree, pset)
     tree = drop_dead(tree, pset, stable)
-    stmts = render(tree)
+    stmts = merge_ands(render(tree))
     if stmts and isinstance(stmts[-1], ast.Return) and stmts[-1].value is None:
         stmts = stmts[:-1]
     stmts = rename_locals(stmts, pset)
@@ -861,6 +959,7 @@ def normalize(fn: ast.FunctionDef, module: ast.Module, scopes=(), keep=(), param
     except Exception as ex:  # noqa: BLE001
         raise TranslationError(f"{fn.name}: normalised form could not be rendered: {ex}") from ex
     out.lineno = getattr(fn, "lineno", 0)
+    out._inlined = set(ctx.inlined)
     if len(out.body) == 1 and isinstance(out.body[0], ast.Pass):
         out.body = []
     return out
